@@ -146,12 +146,12 @@ def gather(run, designs, again=0):
                     kids = [c for c in d['top'].children.values() if not g.isInlinable(c)]
                     t3 = g.getVerilogForHierarchy(kids[0]) if kids else None
                 items.append(({'name': d['name'] + ' (second call on the same generator)', 'kind': d['kind']}, t2, iface))
-                # the clock driver of the system is replaced by one with another name on the same clock wire, then a fresh
-                # generator is asked: every module and instance must follow the new name
+                # the design gets a clock driver of its own with another name (same clock wire) after it has been generated once,
+                # then a fresh generator is asked: every module and instance below must follow the new name
                 try:
                     with quiet():
                         old_drv = d['hw'].clockDriver
-                        d['hw'].clockDriver = py4hw.ClockDriver('CLOCK_50', wire=old_drv.wire)
+                        d['top'].clockDriver = py4hw.ClockDriver('CLOCK_50', wire=old_drv.wire)
                         t4 = py4hw.VerilogGenerator(d['top']).getVerilogForHierarchy()
                     items.append(({'name': d['name'] + ' (after the system clock driver was renamed)', 'kind': d['kind']}, t4, []))
                 except Exception:
